@@ -44,7 +44,7 @@ def main(argv):
     except Exception as e:  # harness bug: never a verdict
         import traceback
 
-        rep.error(f"harness exception {type(e).__name__}: {e}\n{traceback.format_exc()[-2000:]}")
+        rep.error(f"harness exception {type(e).__name__}: {str(e)[:300]} :: {traceback.format_exc()[-700:]}")
     return harness.finish(rep)
 
 
